@@ -105,6 +105,14 @@ theorem for_assign_accepted_by_go_only :
     shellAccepts .posix [kFor, assign, kIn, word, semi, kDo, word, semi, kDone] = false := by
   decide +kernel
 
+/-- Known findings C12-closer-after-redirect-*: `{ ( a ) > a }`. -/
+theorem closer_after_redirect_accepted_by_go_only :
+    accepts .bash [lbrace, lparen, word, rparen, io, word, rbrace] = true ∧
+    shellAccepts .bash [lbrace, lparen, word, rparen, io, word, rbrace] = false ∧
+    accepts .posix [lbrace, lparen, word, rparen, io, word, rbrace] = true ∧
+    shellAccepts .posix [lbrace, lparen, word, rparen, io, word, rbrace] = false := by
+  decide +kernel
+
 /-- Documented difference (flipConfirm(LangBash) in syntax/parser_test.go): bash allows a lone or
     repeated `!`, the Go parser does not. -/
 theorem bash_lone_bang_is_a_documented_difference :
